@@ -992,6 +992,7 @@ where
                             | V::Death { id, .. }
                             | V::VsockDropped { id, .. }
                             | V::RxData { id, .. }
+                            | V::RetransmitTimerExpired { id }
                             | V::Segmented { id, .. } => {
                                 let n = uid_map.len() as u64 + 1;
                                 id.uid = *uid_map.entry(id.uid).or_insert(n);
